@@ -24,11 +24,13 @@ def finish (old : St) (r : St × String) : St × String :=
   let q := if r.1.stable.id ≠ old.stable.id then s!" q={distinctCount r.1.n r.1.stable}" else ""
   (r.1, s!"{r.2} {showState r.1}{q}")
 
-/-- driver state: the engine state and which verifier runs (`mode fixed` selects the repaired one;
-    used only to run the harness against a tree that carries the proposed repair). -/
+/-- driver state: the engine state and which verifier runs. The live model is
+    `verifyNewConfirmsFixed` (= validator.go since /repo commit d34eb0a); the line `mode asis`
+    (harness env C03_ASIS=1, only with VERIF_REPO pointing at a tree where that commit is reverted)
+    selects the old bytes-only verifier. -/
 structure DSt where
   st : St := init 0 0 0
-  fixed : Bool := false
+  asis : Bool := false
 
 def stepSt (V : Verifier) (s : St) (w : List String) : St × String :=
   match w with
@@ -53,9 +55,9 @@ def stepSt (V : Verifier) (s : St) (w : List String) : St × String :=
 
 def step (d : DSt) (w : List String) : DSt × String :=
   match w with
-  | ["mode", "fixed"] => ({ d with fixed := true }, "ok")
+  | ["mode", "asis"] => ({ d with asis := true }, "ok")
   | _ =>
-    let r := stepSt (if d.fixed then verifyNewConfirmsFixed else verifyNewConfirms) d.st w
+    let r := stepSt (if d.asis then verifyNewConfirms else verifyNewConfirmsFixed) d.st w
     ({ d with st := r.1 }, r.2)
 
 end Driver.C03
